@@ -1,39 +1,43 @@
 #!/bin/bash
 # tools/revert_matrix.sh [tier]: for every "fixed:" line of known_findings.jsonl,
-# re-introduces the defect (reverse-applies the fix: commit to /repo's working
-# tree), runs the check of the property it is recorded under, undoes it, and
-# writes /verif/seeded/REVERTS.md.  "A fixed entry suppresses nothing": each of
-# these must make the check report a violation again.
+# re-introduces the defect (reverse-applies the fix: commit in a scratch worktree
+# of /repo's HEAD), runs the check of the property it is recorded under against
+# that tree (tools/check_at), and writes /verif/seeded/REVERTS.md.  "A fixed entry
+# suppresses nothing": each of these must make the check report a violation again.
 cd /verif || exit 2
 export GOFLAGS=-mod=mod GOPROXY=off GOSUMDB=off GOTOOLCHAIN=local
 tier="${1:-quick}"
 out=seeded/REVERTS.md
-if [ -n "$(git -C /repo status --porcelain)" ]; then echo "/repo not clean"; exit 2; fi
+wt=/tmp/wt-revert
+git -C /repo worktree remove --force $wt 2>/dev/null
+git -C /repo worktree add -q --detach $wt HEAD || exit 2
 echo "| fix commit | property | reverted cleanly | check ($tier) exit | violation signatures |" > $out
 echo "|---|---|---|---|---|" >> $out
 grep '^fixed:' known_findings.jsonl | while read -r _ propkv commit rest; do
   prop=${propkv#property=}
-  if ! git -C /repo diff "$commit^" "$commit" | git -C /repo apply -R 2>/dev/null; then
-    if ! git -C /repo diff "$commit^" "$commit" | git -C /repo apply -R --3way 2>/dev/null; then
-      git -C /repo checkout -- . ; git -C /repo reset -q
+  git -C $wt checkout -q -- . ; git -C $wt clean -fdq
+  if ! git -C /repo diff "$commit^" "$commit" | git -C $wt apply -R 2>/dev/null; then
+    if ! git -C /repo diff "$commit^" "$commit" | git -C $wt apply -R --3way 2>/dev/null; then
+      git -C $wt checkout -q -- . ; git -C $wt reset -q
       echo "| $commit | $prop | no (later commits touch the same lines) | - | |" >> $out
       continue
     fi
-    git -C /repo reset -q
+    git -C $wt reset -q
   fi
-  if ! (cd /repo && go build ./... 2>/dev/null); then
-    git -C /repo checkout -- .
+  if ! (cd $wt && go build ./... 2>/dev/null); then
     echo "| $commit | $prop | does not build | - | |" >> $out
     continue
   fi
   log=$(mktemp)
-  VERIF_SEED=1 VERIF_STALL_S=30 bin/check $prop --tier $tier > $log 2>&1
+  VERIF_SEED=1 tools/check_at $wt $prop --tier $tier > $log 2>&1
   rc=$?
   sigs=$(grep "^  $prop|" $log | sed 's/^  //' | head -4 | tr '\n' ';')
   kf=$(grep -c '^VIOLATION' $log)
+  [ $rc = 2 ] && sigs="$(grep -m2 'HARNESS\|BUILD' $log | tr '\n' ';')"
   echo "| $commit | $prop | yes | $rc ($kf VIOLATION lines) | $sigs |" >> $out
+  echo "$commit $prop rc=$rc $sigs" | cut -c1-200
   rm -f $log
-  git -C /repo checkout -- .
 done
-git -C /repo status --porcelain
-cat $out
+git -C /repo worktree remove --force $wt
+rm -rf /tmp/check_at/_tmp_wt-revert
+cat $out | cut -c1-250
